@@ -608,7 +608,7 @@ class Impl:
                 return ("ok", p)
         return ("missing", None)
 
-    def wrapper_options_batch(self, reqs):
+    def _wrapper_options_chunk(self, reqs, tag=0):
         """reqs: [(helper, eapi, shvars)] -> [options string | Err]; the real wrapper files are sourced
         by ONE real bash process (a subshell per request)."""
         out = [None] * len(reqs)
@@ -631,16 +631,33 @@ class Impl:
             script.append(f"( {assigns}; unset OPTIONS; source {q(path)}; printf '%s' \"${{OPTIONS[*]}}\" ); printf '\\0'")
             idx.append(k)
         if idx:
-            sf = self.scratch / "wrap.sh"
+            sf = self.scratch / f"wrap{tag}.sh"
             sf.write_text("\n".join(script) + "\n")
             r = subprocess.run(["bash", str(sf)], env={"PATH": os.environ.get("PATH", "/usr/bin:/bin")},
-                               capture_output=True, text=True, timeout=600)
+                               capture_output=True, text=True, timeout=3000)
             parts = r.stdout.split("\0")
             if r.returncode != 0 or len(parts) != len(idx) + 1:
                 raise RuntimeError(f"bash wrapper evaluation failed: rc={r.returncode} {r.stderr[-500:]}")
             for k, txt in zip(idx, parts):
                 out[k] = Err("wrapper") if txt == "HELPER_EXIT" else txt
         return out
+
+    def wrapper_options_batch(self, reqs):
+        """deduplicated, in chunks of 300 requests evaluated by parallel bash processes"""
+        import concurrent.futures as cf
+        keyf = lambda r: (r[0], r[1], tuple(sorted(r[2].items())))
+        uniq = {}
+        for r in reqs:
+            uniq.setdefault(keyf(r), r)
+        ulist = list(uniq.values())
+        chunks = [ulist[i:i + 300] for i in range(0, len(ulist), 300)]
+        with cf.ThreadPoolExecutor(max_workers=6) as ex:
+            outs = list(ex.map(lambda kc: self._wrapper_options_chunk(kc[1], kc[0]), enumerate(chunks)))
+        res = {}
+        for ch, out in zip(chunks, outs):
+            for r, o in zip(ch, out):
+                res[keyf(r)] = o
+        return [res[keyf(r)] for r in reqs]
 
     def wrapper_options(self, helper, eapi, sh):
         return self.wrapper_options_batch([(helper, eapi, sh)])[0]
